@@ -191,12 +191,26 @@ func SpecIs4In6(s string) bool {
 //@   ensures[sorted] forall i int, j int :: {x[i], x[j]} 0 <= i && i < j && j < len(x) ==> x[i] <= x[j]
 //@   ensures[from-old] forall i int :: {x[i]} 0 <= i && i < len(x) ==> (exists j int :: 0 <= j && j < len(x) && x[i] == old(x[j]))
 //@   ensures[all-old] forall j int :: {old(x[j])} 0 <= j && j < len(x) ==> (exists i int :: 0 <= i && i < len(x) && x[i] == old(x[j]))
+//@   let distinct0 = (forall i int, j int :: {x[i], x[j]} 0 <= i && i < j && j < len(x) ==> x[i] != x[j])
+//@   ensures[distinct] distinct0 ==> (forall i int, j int :: {x[i], x[j]} 0 <= i && i < j && j < len(x) ==> x[i] != x[j])
 
+// sortedKeys: every code of the map exactly once: the codes other than 82 and 255 in strictly ascending order, then 82
+// if present, then 255 if present. seen(c): key c has been produced by the map range loop (ghost; Go visits each key once).
 //@ contract (Options).sortedKeys
 //@   ensures[fresh] fresh(result)
-//@   ensures[range] forall i int :: {result[i]} 0 <= i && i < len(result) ==> 0 <= result[i] && result[i] <= 255
+//@   ensures[range] forall i int :: {result[i]} 0 <= i && i < len(result) ==> 0 <= result[i] && result[i] <= 255 && has(o, uint8(result[i]))
+//@   ensures[complete] forall c uint8 :: {has(o, c)} has(o, c) ==> (exists i int :: 0 <= i && i < len(result) && result[i] == int(c))
+//@   ensures[count] skLen(o, result) >= 0
+//@   ensures[sorted] forall i int, j int :: {result[i], result[j]} 0 <= i && i < j && j < skLen(o, result) ==> result[i] < result[j]
+//@   ensures[body] forall i int :: {result[i]} 0 <= i && i < skLen(o, result) ==> result[i] != 82 && result[i] != 255
+//@   ensures[tail82] has(o, 82) ==> result[skLen(o, result)] == 82
+//@   ensures[tail255] has(o, 255) ==> result[len(result)-1] == 255
 //@   loop 0 invariant[fresh] fresh(codes) && (codes == nil || allocated(codes)) && off(codes) >= 0
-//@   loop 0 invariant[range] forall i int :: {codes[i]} 0 <= i && i < len(codes) ==> 0 <= codes[i] && codes[i] <= 255
+//@   loop 0 invariant[range] forall i int :: {codes[i]} 0 <= i && i < len(codes) ==> 0 <= codes[i] && codes[i] <= 255 && codes[i] != 82 && codes[i] != 255 && seen(uint8(codes[i])) && has(o, uint8(codes[i]))
+//@   loop 0 invariant[distinct] forall i int, j int :: {codes[i], codes[j]} 0 <= i && i < j && j < len(codes) ==> codes[i] != codes[j]
+//@   loop 0 invariant[seen] forall c uint8 :: {seen(c)} seen(c) && c != 82 && c != 255 ==> (exists i int :: 0 <= i && i < len(codes) && codes[i] == int(c))
+//@   loop 0 invariant[flags] hasOptAgentInfo == seen(82) && hasOptEnd == seen(255)
+//@ define skLen(o, r) = len(r) - ite(has(o, 82), 1, 0) - ite(has(o, 255), 1, 0)
 
 //@ contract bytes.Repeat
 //@   trusted
